@@ -509,7 +509,7 @@ Fixpoint seval (Sg : sig) (I : interp) (rho : env) (s : sexp) {struct s} : optio
             | [srt], [d] =>
                 if String.eqb name "const" then
                   match sort_of_sexp Sg srt, seval Sg I rho d with
-                  | Some (TArr _ _), Some dv => Some (VArr (fun _ => dv))
+                  | Some (TArr i _), Some dv => Some (VArr (fun k => if key_sortb k i then dv else junk))
                   | _, _ => None
                   end
                 else None
